@@ -25,7 +25,7 @@ def main():
               'and without collection; oracle: reference model output + the intern-table invariant hook inside every '
               'collection (no two marked strings with equal content, every marked string is the table entry for its '
               'content, keys point into their values, entries are held strings after a full sweep)'),
-        n_quick=400, n_thorough=12000,
+        n_quick=800, n_thorough=40000,
         stat_keys=('collections', 'intern_checks', 'intern_strings', 'h_reused', 'objs_freed'),
         requires=[('intern_checks', 20000, 500000), ('intern_strings', 1000000, 20000000)])
 
